@@ -9,6 +9,7 @@
 //! Exit codes: 0 held, 1 violation (VIOLATION line on stdout), 2 harness error.
 #![allow(dead_code)]
 
+mod alloc;
 mod case;
 mod control;
 mod ctx;
@@ -26,6 +27,10 @@ mod stats;
 mod worker;
 
 use std::collections::BTreeMap;
+
+#[cfg(not(miri))]
+#[global_allocator]
+static GLOBAL: alloc::SimAlloc = alloc::SimAlloc;
 
 pub struct Args {
     pub pos: Vec<String>,
